@@ -70,7 +70,7 @@ func (vc *VC) execInstr(fr *Frame, st *State, instr ssa.Instruction) {
 			vc.safety(fr, st, "bounds", "slice index in range",
 				fmt.Sprintf("(and (<= 0 %s) (< %s (s_len %s)))", idx, idx, s), x.Pos())
 			fr.locs[x] = &Loc{kind: "elem", sv: vc.elemSV(xt.Elem()), base: fmt.Sprintf("(s_arr %s)", s),
-				idx: vc.def("Int", fmt.Sprintf("(+ (s_off %s) %s)", s, idx), "ix"), typ: xt.Elem()}
+				idx: vc.def("Int", fmt.Sprintf("(ix (s_off %s) %s)", s, idx), "ix"), typ: xt.Elem()}
 			if isStructLike(xt.Elem()) {
 				vc.unsupportedf("slice of struct values in %s", fr.fn.Name())
 			}
@@ -247,6 +247,9 @@ func (vc *VC) execInstr(fr *Frame, st *State, instr ssa.Instruction) {
 			vc.assume("map iteration order is arbitrary: each step yields an arbitrary key of the map (completeness of the traversal is not modelled)")
 		}
 		fr.tuples[x] = []string{ok, k, v}
+
+	case *ssa.MakeChan:
+		fr.env[x] = vc.alloc(st, "chan")
 
 	case *ssa.MakeClosure:
 		r := vc.alloc(st, "closure")
